@@ -289,7 +289,8 @@ def run_rows(ctx, b, n):
         obj = {'res': {'descriptor': {'schema': {'fields': [], **({'primaryKey': pk} if pk is not None else {})}}}, '__iter__': rows}
         b.add('deduper', [obj], real_call(lambda: list(DD.deduper(FakeRows(rows, pk)))), case=[rows, pk])
         # unpivot_rows
-        unp = [{'name': rng.choice(keys), 'keys': {'year': rng.choice([2000, 'x'])}} for _ in range(rng.randint(0, 2))]
+        unp = [{'name': rng.choice(keys), 'keys': rng.choice([{'year': rng.choice([2000, 'x'])}, {'year': 1, 'q': 'z'}, {'q': 'z'}, {}])}
+               for _ in range(rng.randint(0, 3))]
         keep = rng.sample(keys, rng.randint(0, 2))
         ev = {'name': rng.choice(['value', 'k'])}
         b.add('unpivot_rows', [rows, unp, keep, ev], real_call(lambda: list(UP.unpivot_rows(rows, unp, keep, ev))), case=[rows, unp, keep, ev])
